@@ -225,6 +225,20 @@ fn chunks_typed<F: WF, W: WindowFn<f64, Output = f64> + Clone>(c: &ChunkCase, ha
         let w: Windower<F, W> = Windower::new(&frames[..], c.bin, c.hop);
         first_frame_ok(w.skip(j).next(), j, "skip(k).next()")?;
     }
+    // a clone taken after j chunks continues with the same schedule as the original
+    for j in [0usize, 1, expected / 2, expected] {
+        let mut w: Windower<F, W> = Windower::new(&frames[..], c.bin, c.hop);
+        for _ in 0..j.min(expected) {
+            let _ = w.next();
+        }
+        let done = j.min(expected);
+        let mut cl = w.clone();
+        first_frame_ok(cl.next(), done, "clone().next()")?;
+        let rest = cl.take(expected + 3).count() + (done < expected) as usize;
+        ensure!(rest == expected - done, "a clone taken after {} chunks yields {} more chunks, the original has {} left (L = {}, bin = {}, hop = {})", done, rest, expected - done, c.l, c.bin, c.hop);
+        let left = w.take(expected + 3).count();
+        ensure!(left == expected - done, "after being cloned the original yields {} more chunks, expected {}", left, expected - done);
+    }
     let w: Windower<F, W> = Windower::new(&frames[..], c.bin, c.hop);
     let stepped = w.step_by(2).take(expected + 3).count();
     ensure!(stepped == (expected + 1) / 2, "step_by(2) yields {} chunks, expected {} of {}", stepped, (expected + 1) / 2, expected);
